@@ -212,6 +212,12 @@ func expandGuards(gs []Guard) []Guard {
 	seen := map[ssa.Value]bool{}
 	for i := 0; i < len(out) && i < 64; i++ {
 		g := out[i].norm()
+		// a bit of a locally accumulated mask is set: the one place that sets it was executed, under its guards
+		// (provided |= cryptoPlaintext only if !ForceEncryption; later `provided&cryptoPlaintext != 0`)
+		if site := bitSetSite(g); site != nil && !seen[site.(ssa.Value)] {
+			seen[site.(ssa.Value)] = true
+			out = append(out, guardsOfRaw(site.Block())...)
+		}
 		ph, ok := g.Cond.(*ssa.Phi)
 		if !ok || seen[ph] {
 			continue
@@ -237,6 +243,93 @@ func expandGuards(gs []Guard) []Guard {
 		out = append(out, edgeGuard(pred, ph.Block())...)
 	}
 	return out
+}
+
+// bitSetSite: the guard states that bit c of v is set (v&c != 0, v&c == c, !(v&c == 0)) where v is built in this
+// function from 0 by `v |= const` steps (through phis); returns the unique OR instruction that sets that bit, if there
+// is exactly one.
+func bitSetSite(g Guard) ssa.Instruction {
+	bo, ok := g.Cond.(*ssa.BinOp)
+	if !ok || (bo.Op != token.EQL && bo.Op != token.NEQ) {
+		return nil
+	}
+	and, ok := stripIntConv(bo.X).(*ssa.BinOp)
+	k, okk := constInt(bo.Y)
+	if !ok || !okk || and.Op != token.AND {
+		return nil
+	}
+	v, c := and.X, and.Y
+	bit, okb := constInt(c)
+	if !okb {
+		v, c = and.Y, and.X
+		bit, okb = constInt(c)
+	}
+	if !okb || bit <= 0 || bit&(bit-1) != 0 {
+		return nil
+	}
+	// polarity: is the bit set on this edge?
+	var set bool
+	switch {
+	case k == 0:
+		set = (bo.Op == token.NEQ) == g.Pol
+	case k == bit:
+		set = (bo.Op == token.EQL) == g.Pol
+	default:
+		return nil
+	}
+	if !set {
+		return nil
+	}
+	var sites []ssa.Instruction
+	bad := false
+	seen := map[ssa.Value]bool{}
+	var walk func(x ssa.Value, d int)
+	walk = func(x ssa.Value, d int) {
+		x = stripIntConv(x)
+		if seen[x] || bad {
+			return
+		}
+		seen[x] = true
+		if d > 12 {
+			bad = true
+			return
+		}
+		switch y := x.(type) {
+		case *ssa.Const:
+			if kk, ok := constInt(y); !ok || kk&bit != 0 {
+				bad = true // a constant that already carries the bit: no site to speak of
+			}
+		case *ssa.Phi:
+			for _, e := range y.Edges {
+				walk(e, d+1)
+			}
+		case *ssa.BinOp:
+			if y.Op != token.OR {
+				bad = true
+				return
+			}
+			if kk, ok := constInt(y.Y); ok {
+				if kk&bit != 0 {
+					sites = append(sites, y)
+				}
+				walk(y.X, d+1)
+			} else if kk, ok := constInt(y.X); ok {
+				if kk&bit != 0 {
+					sites = append(sites, y)
+				}
+				walk(y.Y, d+1)
+			} else {
+				bad = true
+			}
+		default:
+			bad = true
+		}
+	}
+	walk(v, 0)
+	if bad || len(sites) != 1 {
+		return nil
+	}
+	return sites[0]
 }
 
 // guardsOnEdge: the facts that hold when control takes the edge pred→to: the guards of pred, the edge's own
